@@ -383,9 +383,12 @@ func runWorkers(prop, scenario string, bound, maxExec int, deadline time.Time, n
 	outs := make([]workerOut, nshards)
 	errs := make([]error, nshards)
 	done := make(chan int, nshards)
+	sem := make(chan struct{}, 16) // at most 16 worker processes at a time; with more shards than that the work balances itself
 	for i := 0; i < nshards; i++ {
 		go func(i int) {
 			defer func() { done <- i }()
+			sem <- struct{}{}
+			defer func() { <-sem }()
 			cmd := exec.Command(os.Args[0], prop, "--tier", "worker", "--",
 				"worker", scenario, fmt.Sprint(bound), fmt.Sprint(maxExec), fmt.Sprint(deadline.Unix()), fmt.Sprint(i), fmt.Sprint(nshards))
 			cmd.Env = append(os.Environ(), "GOMAXPROCS=2")
